@@ -57,3 +57,6 @@ package bifrost_rpc_access
 //@   noframe
 //@   nosweep nil-deref
 //@   cs local.bcast ensures len(sendQueue) <= old(len(sendQueue)) && disposed == old(disposed) && resIdle == old(resIdle)
+// the batch taken for sending is the whole queue, and the queue that callbacks append to from now on
+// shares no memory with it (reports appended during a Send must not overwrite unsent ones)
+//@   cs local.bcast#2 ensures len(sendQueue) == 0 && (sendQueue == nil || old(sendQueue) == nil || sliceobj(sendQueue) != sliceobj(old(sendQueue)))
